@@ -240,6 +240,12 @@ def parse_header(text, cname_index):
             markers = ('buf = flatcc_json_parser_unmatched_symbol(ctx, buf, end);', 'return buf;')
             if not any(b.startswith(markers[0]) or b.startswith('return buf;') for b in stripped):
                 raise TranslateError('%s: neither a trie nor an empty-dictionary body' % fname)
+            if kind == 'table':
+                # a table without names still has to step over the opening quote of every member name before it calls the
+                # unmatched action
+                j0 = [n for n, b in enumerate(stripped) if b == L_UNM_FIELD]
+                if len(j0) != 1 or stripped[j0[0] - 1] != 'buf = flatcc_json_parser_symbol_start(ctx, buf, end);':
+                    raise TranslateError('%s: unmatched action of a table without names is not preceded by symbol_start' % fname)
             out[fname] = {'kind': kind, 'trie': None}
             i = k + 1; continue
         start = first[0] + 1
